@@ -235,6 +235,29 @@ class ModelNS:
         return self.d[attr]
 
 
+class CompMap:
+    """{key(k): value(k) for k in range(n)} with n symbolic.  A lookup yields value(p) for the LAST position p whose key
+    equals the looked-up key (Python: later entries overwrite earlier ones); no such position: KeyError."""
+
+    def __init__(self, n, keyf, valf):
+        self.n, self.keyf, self.valf = n, keyf, valf
+
+    def lookup(self, I, key, what):
+        if isinstance(key, Havoc):
+            return key
+        p, q = z3.Int(fresh_name('cm_p')), z3.Int(fresh_name('cm_q'))
+        has = z3.Bool(fresh_name('cm_has'))
+        kq = self.keyf(q)
+        ne = z3.Not(to_bool(cmpop('Eq', kq, key)))
+        pats = [lift(kq)] if is_z3(lift(kq)) and not z3.is_var(lift(kq)) and not z3.is_int_value(lift(kq)) else []
+        later = z3.ForAll([q], z3.Implies(z3.And(q > p, q < self.n), ne), patterns=pats) if pats else z3.ForAll([q], z3.Implies(z3.And(q > p, q < self.n), ne))
+        none = z3.ForAll([q], z3.Implies(z3.And(q >= 0, q < self.n), ne), patterns=pats) if pats else z3.ForAll([q], z3.Implies(z3.And(q >= 0, q < self.n), ne))
+        I.assume(z3.Implies(has, z3.And(p >= 0, p < self.n, to_bool(cmpop('Eq', self.keyf(p), key)), later)))
+        I.assume(z3.Implies(z3.Not(has), none))
+        I.require(f'key:{what}', has, kind='index')
+        return self.valf(p)
+
+
 # ------------------------------------------------------------------------------- accumulators
 class Family:
     """Rows / items appended inside a symbolic loop: one item per assignment of `vars`
@@ -1053,6 +1076,8 @@ class Interp:
             if hk is not True:
                 self.require(f'key:{what}', hk, kind='index')
             return o.lookup(idx, self.resolve_bool)
+        if isinstance(o, CompMap):
+            return o.lookup(self, idx, what)
         if isinstance(o, dict):
             if is_z3(idx) or isinstance(idx, (Arr, Obj)):
                 raise Unsupported('symbolic dict key')
@@ -1182,6 +1207,8 @@ class Interp:
             self.model.df_setitem(self, o, idx, v)
             return
         if isinstance(o, Seg) and o.kind == 'df':
+            if type(v).__name__ == 'SegColumn' and v.seg is o and v.name == idx:
+                return      # frame[c] = frame[c] (after an identity conversion): nothing changes
             if self.loops or self.guards or not isinstance(idx, str) or isinstance(v, (Arr, Mat, list, tuple)):
                 raise Unsupported('column store on a loop-built frame (form)')
             for sgm in o.segs:
@@ -1702,6 +1729,17 @@ class Interp:
             if isinstance(o, Obj) and o.has(attr):
                 acc = self.make_acc(o.get(attr))
                 o.set(attr, acc if acc is not None else Havoc(f'loop-carried attribute {attr}', st.lineno))
+        # mutable row copies (Series) created outside this loop and stored into by its body: the stored fields carry
+        # the previous iteration's value at the top of the body and the last iteration's value after the loop
+        stale_rows = []
+        for n_ in ast.walk(st):
+            if isinstance(n_, ast.Subscript) and isinstance(n_.ctx, ast.Store) and isinstance(n_.value, ast.Name) and \
+                    type(env.get(n_.value.id)).__name__ == 'RowCopy':
+                if not (isinstance(n_.slice, ast.Constant) and isinstance(n_.slice.value, str)):
+                    raise Unsupported('row store with a computed key inside a symbolic loop')
+                stale_rows.append((env[n_.value.id], n_.slice.value))
+        for (rc, key) in stale_rows:
+            rc.over[key] = Havoc(f'row field {key!r} carried over from the previous iteration', st.lineno)
         before_names = set(env)
         self.loops.append(lc)
         sym.DEPTH[0] = len(self.loops)
@@ -1718,6 +1756,8 @@ class Interp:
             self.loops.pop()
             sym.DEPTH[0] = len(self.loops)
             sym.SCOPE.pop()
+        for (rc, key) in stale_rows:
+            rc.over[key] = Havoc(f'row field {key!r} after a symbolic loop', st.lineno)
         # eliminate k from pending parametric writes
         for oid, (obj, layers) in lc.pending.items():
             if self.loops and getattr(obj, 'birth', 0) < len(self.loops):
@@ -2253,6 +2293,41 @@ class Interp:
         raise Unsupported('comprehension over ' + type(it).__name__)
 
     ev_GeneratorExp = ev_ListComp
+
+    def ev_DictComp(self, e, frame):
+        if len(e.generators) != 1 or e.generators[0].ifs:
+            raise Unsupported('dict comprehension form')
+        gen = e.generators[0]
+        it = self.ev(gen.iter, frame)
+        if isinstance(it, Havoc):
+            return it
+        conc = self.concrete_iter(it)
+        env = frame['env']
+        if conc is not None:
+            saved = dict(env)
+            pairs = []
+            for item in conc:
+                self.assign(gen.target, item, frame)
+                pairs.append((self.ev(e.key, frame), self.ev(e.value, frame)))
+            env.clear()
+            env.update(saved)
+            return SymMap(pairs)
+        snapshot = dict(env)
+        if isinstance(it, SymRange):
+            lo, n, getitem = lift(it.lo), _sz(binop('Sub', it.hi, it.lo)), (lambda i: binop('Add', it.lo, i))
+        elif isinstance(it, Arr):
+            n, getitem = it.n, (lambda i, _f=it.f: _f(i))
+        elif isinstance(it, SymEnum):
+            n, getitem = it.arr.n, (lambda i, _f=it.arr.f: (binop('Add', i, it.start), _f(i)))
+        else:
+            raise Unsupported('dict comprehension over ' + type(it).__name__)
+
+        def at(i, what):
+            fr = dict(frame)
+            fr['env'] = dict(snapshot)
+            self.assign(gen.target, getitem(i), fr)
+            return self.ev(what, fr)
+        return CompMap(lift(n), lambda i: at(i, e.key), lambda i: at(i, e.value))
 
     def ev_Starred(self, e, frame):
         raise Unsupported('starred')
